@@ -240,7 +240,6 @@ func OnceValues[T1, T2 any](f func() (T1, T2)) func() (T1, T2) {
 	return func() (T1, T2) { o.Do(func() { v1, v2 = f() }); return v1, v2 }
 }
 
-
 // Pool is a deterministic stand-in for sync.Pool. The real pool, when built with the race detector, drops a quarter of
 // all Puts at random and keeps per-P caches - randomness the explorer does not own, which made a conflict on a pooled
 // buffer reproduce in some worker processes and not in others. Here Put always keeps the item (LIFO) and Get always
